@@ -705,8 +705,8 @@ def bounded_library(ctx, pool, cases):
 
 def bounded_scripted(ctx, pool, cases):
     thorough = ctx.tier == 'thorough'
-    depth = 6 if thorough else 4
-    max_runs = 1500 if thorough else 240
+    depth = 7 if thorough else 4
+    max_runs = 4000 if thorough else 240
     sel = [c for c in cases if c['script']]
     ctx.bounds['scripted'] = ('{} specifications using the cnfgen-native samplers, each under every outcome prefix of length <= {} '
                               '(<= {} runs) x tails low/high/random of the scripted random module').format(len(sel), depth, max_runs)
